@@ -402,9 +402,9 @@ func (w *world) mutateItem(it *itemDef) *itemState {
 	st := &itemState{labels: copyLabels(old.labels), nilLabels: old.nilLabels,
 		parents: append([]string(nil), old.parents...), nets: append([]netip.Prefix(nil), old.nets...),
 		ports: append([]portDef(nil), old.ports...)}
-	wts := []int{30, 15, 20, 12, 12, 11}
+	wts := []int{26, 12, 16, 8, 6, 8, 10, 6, 8}
 	if !w.c04 {
-		wts = []int{40, 20, 25, 0, 0, 15}
+		wts = []int{40, 20, 25, 0, 0, 15, 0, 0, 0}
 	}
 	switch src.Weighted(wts, "item_mut") {
 	case 0: // set one label
@@ -426,6 +426,35 @@ func (w *world) mutateItem(it *itemDef) *itemState {
 		st.ports = w.drawPorts(it)
 	case 5:
 		return w.drawItemState(it)
+	case 6: // one named port gets another number (same name and protocol)
+		if len(st.ports) > 0 {
+			j := src.Intn(len(st.ports), "port_pick")
+			st.ports[j].num = portNums[src.Intn(len(portNums), "port_num")]
+		} else {
+			st.ports = w.drawPorts(it)
+		}
+	case 7: // one named port changes protocol or name
+		if len(st.ports) > 0 {
+			j := src.Intn(len(st.ports), "port_pick")
+			if src.Chance(500, "port_rename") {
+				st.ports[j].name = portNames[src.Intn(len(portNames), "port_name")]
+			} else {
+				st.ports[j].proto = protoNames[src.Intn(len(protoNames), "port_proto")]
+			}
+		} else {
+			st.ports = w.drawPorts(it)
+		}
+	case 8: // one address / CIDR is added, dropped or replaced
+		fresh := w.drawNets(it)
+		switch {
+		case len(st.nets) > 0 && src.Chance(350, "net_drop"):
+			j := src.Intn(len(st.nets), "net_pick")
+			st.nets = append(st.nets[:j], st.nets[j+1:]...)
+		case len(st.nets) > 0 && len(fresh) > 0 && src.Chance(500, "net_replace"):
+			st.nets[src.Intn(len(st.nets), "net_pick")] = fresh[0]
+		case len(fresh) > 0 && len(st.nets) < 4:
+			st.nets = append(st.nets, fresh[0])
+		}
 	}
 	return st
 }
@@ -756,7 +785,13 @@ func run(r *core.R) {
 				w.setItem(it, w.mutateItem(it), "update")
 			}
 		case 1:
-			w.setItem(w.items[src.Intn(nItems, "op_item")], nil, "update")
+			j := src.Intn(nItems, "op_item")
+			if w.items[j].cur == nil && src.Chance(800, "delete_prefers_live") {
+				for k := 0; k < nItems && w.items[j].cur == nil; k++ {
+					j = (j + 1) % nItems
+				}
+			}
+			w.setItem(w.items[j], nil, "update")
 		case 2:
 			w.setParent(src.Intn(w.opPar, "op_parent"), w.drawLabels("parent_label"), "update")
 		case 3:
@@ -764,7 +799,13 @@ func run(r *core.R) {
 		case 4:
 			w.setSet(src.Intn(nSets, "op_set"), w.drawSpec(), "update")
 		case 5:
-			w.setSet(src.Intn(nSets, "op_set"), nil, "update")
+			j := src.Intn(nSets, "op_set")
+			if w.sets[j].cur == nil && src.Chance(800, "delete_prefers_live") {
+				for k := 0; k < nSets && w.sets[j].cur == nil; k++ {
+					j = (j + 1) % nSets
+				}
+			}
+			w.setSet(j, nil, "update")
 		case 6:
 			if !w.haveLast {
 				continue
